@@ -87,7 +87,11 @@ let render_raw (evs : event list) : string =
     | Slot (c, i) when int_of_nat c < 2 -> Printf.sprintf "s%d.%d" (int_of_nat c) (int_of_nat i)
     | _ ->
       (try Hashtbl.find names l
-       with Not_found -> let n = Printf.sprintf "t%d" (Hashtbl.length names) in Hashtbl.add names l n; n) in
+       with Not_found ->
+         let used = Hashtbl.fold (fun _ v acc -> v :: acc) names [] in
+         let rec free k = if List.mem (Printf.sprintf "t%d" k) used then free (k + 1) else k in
+         let n = Printf.sprintf "t%d" (free 0) in Hashtbl.add names l n; n) in
+  let forget l = match l with Slot (c, _) when int_of_nat c < 2 -> () | _ -> Hashtbl.remove names l in
   let how_s pre l h =
     let nl = name l in
     match h with
@@ -97,7 +101,7 @@ let render_raw (evs : event list) : string =
   let one = function
     | Construct (l, h) -> how_s "C" l h
     | Assign (l, h) -> how_s "A" l h
-    | Destroy l -> "D:" ^ name l
+    | Destroy l -> let n = name l in forget l; "D:" ^ n
     | Use l -> "U:" ^ name l in
   if evs = [] then "-" else join (List.map one evs)
 
